@@ -239,7 +239,7 @@ def run(ctx):
             exits = {n.id for n in g.exits()}
             # (a) every exit, under any inputs and one fault of the library/user kind
             p = g.find_path_budget(lc.primary_sync, lambda n: n.id in exits, avoid=rec_ids, budget=1,
-                                   is_fault=lambda e: e.kind == 'exc' and e.cause == 'e3')
+                                   is_fault=lambda e: e.kind == 'exc' and e.cause in ('e3', 'e3p'))
             ctx.check('R3', f'{cls.name}: every exit of {lc.main.short} after start-up stores an outcome (inputs + one library fault)', p is None,
                       lc.main.short, 'exit-without-outcome' + (':' + (p[-1].exc or 'normal') if p else ''),
                       f'{lc.main.short} can end without storing an outcome (has_error None on a dead thread worker): '
@@ -390,7 +390,7 @@ def check_remote_parent(ctx, cls, lc, seen):
         return
     seen.add(k2)
     gg = ctx.an.cfg(ff, cls)
-    fetch_ids = {n.id for n in gg.nodes if n.stmt is not None and n.part == 'eval' and any(last_attr(c) == '_fetch_results' for c in calls_in(n.stmt))}
+    fetch_ids = {n.id for n in gg.nodes if n.stmt is not None and n.part == 'eval' and any(last_attr(c) == '_fetch_results' for c in n.calls())}
     store_ids = {n.id for n in gg.nodes if n.stmt is not None and n.part in (None, 'store') and isinstance(n.stmt, ast.Assign)
                  and any(is_self_attr(t, lc.slot) for t in n.stmt.targets) and isinstance(n.stmt.value, ast.Tuple)}
     exits = {n.id for n in gg.exits()}
